@@ -117,15 +117,24 @@ structure Series where
   t0 : Nat
   dt : Nat
   info : Nat
+  /-- the lazily created `.time` axis object (`setattr_on_read`): absent until first read -/
+  time : Option Nat := none
   deriving Repr, DecidableEq
 
-def Series.ids (s : Series) : List Nat := [s.data, s.t0, s.dt, s.info]
+def Series.ids (s : Series) : List Nat := [s.data, s.t0, s.dt, s.info] ++ s.time.toList
 
-/-- `TimeSeries.copy()`: new data buffer, new time axis (own attribute objects), new metadata dict -/
+/-- content of the axis object of a series: the cached one, else what `.time` would build -/
+def timeContent (st : Store) (s : Series) : List Int :=
+  match s.time with
+  | some i => aget st i
+  | none => aget st s.t0 ++ aget st s.dt
+
+/-- `TimeSeries.copy()`: new data buffer, new time axis (`self.time.copy()`: its own object whether
+or not the operand's `.time` had been read before), own attribute objects, new metadata -/
 def seriesCopy (st : Store) (s : Series) : Store × Series :=
   let n := st.length
-  (st ++ [aget st s.data, aget st s.t0, aget st s.dt, aget st s.info],
-   { data := n, t0 := n + 1, dt := n + 2, info := n + 3 })
+  (st ++ [aget st s.data, aget st s.t0, aget st s.dt, aget st s.info, timeContent st s],
+   { data := n, t0 := n + 1, dt := n + 2, info := n + 3, time := some (n + 4) })
 
 /-- `a + other`, `a - other`, …: `out = self.copy(); out.data = out.data.__op__(other)` -/
 def seriesArith (st : Store) (f : Int → Int → Int) (s : Series) (other : Nat) : Store × Series :=
